@@ -29,6 +29,8 @@
      d = TRUE   the result relies on a reading of the documentation that is more
                 detailed than the text (used by the binding to separate
                 statement-level disagreement from spec drift).
+     u = TRUE   rows with equal onset were put "in onset order": their mutual order is
+                not prescribed, the result is the table up to that order.
 *)
 EXTENDS Integers, Sequences, FiniteSets, TLC
 
@@ -55,7 +57,6 @@ Str(n) == IF n = NaN THEN NA ELSE ToString(n)
 (* ---- sequences ---- *)
 \* the subsequence of s at the (ascending) positions I
 AtIdx(s, I) == [k \in 1..Cardinality(I) |-> s[CHOOSE i \in I : Cardinality({j \in I : j < i}) = k - 1]]
-Filter(s, P(_)) == AtIdx(s, {i \in DOMAIN s : P(s[i])})
 Dedup(s) == AtIdx(s, {i \in DOMAIN s : \A j \in 1..(i - 1) : s[j] # s[i]})
 IndexOf(s, x) == CHOOSE i \in DOMAIN s : s[i] = x
 Distinct(s) == Cardinality(Range(s)) = Len(s)
@@ -64,11 +65,16 @@ SumSeq(s) == IF s = <<>> THEN 0 ELSE s[1] + SumSeq(Tail(s))
 RECURSIVE Flatten(_)
 Flatten(ss) == IF ss = <<>> THEN <<>> ELSE ss[1] \o Flatten(Tail(ss))
 
+\* equal as bags of rows
+SameBag(a, b) == /\ Len(a) = Len(b)
+                 /\ \A x \in Range(a) \cup Range(b) :
+                       Cardinality({i \in DOMAIN a : a[i] = x}) = Cardinality({i \in DOMAIN b : b[i] = x})
+
 (* ---- outcomes ---- *)
-Ok(c, r) == [k |-> "ok", cols |-> c, rows |-> r, e |-> "", d |-> FALSE]
+Ok(c, r) == [k |-> "ok", cols |-> c, rows |-> r, e |-> "", d |-> FALSE, u |-> FALSE]
 OkT(t)   == Ok(t.cols, t.rows)
-Err(e)   == [k |-> "err", cols |-> <<>>, rows |-> <<>>, e |-> e, d |-> FALSE]
-Undef      == [k |-> "any", cols |-> <<>>, rows |-> <<>>, e |-> "", d |-> TRUE]
+Err(e)   == [k |-> "err", cols |-> <<>>, rows |-> <<>>, e |-> e, d |-> FALSE, u |-> FALSE]
+Undef    == [k |-> "any", cols |-> <<>>, rows |-> <<>>, e |-> "", d |-> TRUE, u |-> FALSE]
 Detail(r, b) == [r EXCEPT !.d = @ \/ b]
 
 Cols(t) == Range(t.cols)
@@ -82,12 +88,14 @@ Project(t, cs) == Ok(cs, [i \in DOMAIN t.rows |-> [c \in Range(cs) |-> t.rows[i]
    remove_values = "List of key values for rows to remove". *)
 RemoveRows(p, t) ==
   IF p.column_name \notin Cols(t) THEN Detail(OkT(t), TRUE)
-  ELSE Ok(t.cols, Filter(t.rows, LAMBDA r : r[p.column_name] \notin Range(p.remove_values)))
+  ELSE Detail(Ok(t.cols, AtIdx(t.rows, {i \in DOMAIN t.rows : t.rows[i][p.column_name] \notin Range(p.remove_values)})),
+              \* a numeric-looking value: whether "1" means the text or the number depends on how the column is read
+              \E v \in Range(p.remove_values) : IsNum(v))
 
 (* remove_columns: ":raises KeyError: If ignore_missing is False and a column not in the data is to be removed." *)
 RemoveColumns(p, t) ==
   IF ~p.ignore_missing /\ ~(Range(p.column_names) \subseteq Cols(t)) THEN Err("KeyError")
-  ELSE Project(t, Filter(t.cols, LAMBDA c : c \notin Range(p.column_names)))
+  ELSE Project(t, AtIdx(t.cols, {i \in DOMAIN t.cols : t.cols[i] \notin Range(p.column_names)}))
 
 (* rename_columns: column_mapping = sequence of <<old, new>> (the JSON object in key order);
    ":raises KeyError: When ignore_missing is False and column_mapping has columns not in the data." *)
@@ -105,8 +113,8 @@ RenameColumns(p, t) ==
    "If true columns not in column_order are placed at end, otherwise ignored";
    ":raises ValueError: When ignore_missing is false and column_order has columns not in the data." *)
 ReorderColumns(p, t) ==
-  LET present == Filter(p.column_order, LAMBDA c : c \in Cols(t))
-      others == Filter(t.cols, LAMBDA c : c \notin Range(p.column_order))
+  LET present == AtIdx(p.column_order, {i \in DOMAIN p.column_order : p.column_order[i] \in Cols(t)})
+      others == AtIdx(t.cols, {i \in DOMAIN t.cols : t.cols[i] \notin Range(p.column_order)})
   IN IF ~p.ignore_missing /\ Len(present) < Len(p.column_order) THEN Err("ValueError")
      ELSE Project(t, IF p.keep_others THEN present \o others ELSE present)
 
@@ -118,7 +126,7 @@ FactorColumn(p, t) ==
   IF c \notin Cols(t) THEN Undef
   ELSE
   LET cv == Column(t, c)
-      vals == IF Has(p, "factor_values") THEN p.factor_values ELSE Dedup(Filter(cv, LAMBDA v : v # NA))
+      vals == IF Has(p, "factor_values") THEN p.factor_values ELSE Dedup(AtIdx(cv, {i \in DOMAIN cv : cv[i] # NA}))
       names == IF Has(p, "factor_names") THEN p.factor_names ELSE [i \in DOMAIN vals |-> c \o "." \o vals[i]]
       all == Cols(t) \cup Range(names)
   IN IF Range(names) \cap Cols(t) # {} \/ ~Distinct(names) \/ Len(names) # Len(vals) THEN Undef
@@ -145,7 +153,7 @@ RemapColumns(p, t) ==
   LET Key(r) == [j \in 1..ns |-> r[src[j]]]
       Hits(r) == {m \in Range(p.map_list) : SubSeq(m, 1, ns) = Key(r)}
       Val(r, c) == IF Hits(r) = {} THEN NA ELSE (CHOOSE m \in Hits(r) : TRUE)[ns + IndexOf(dst, c)]
-      newc == Filter(dst, LAMBDA c : c \notin Cols(t))
+      newc == AtIdx(dst, {i \in DOMAIN dst : dst[i] \notin Cols(t)})
       all == Cols(t) \cup Range(dst)
   IN IF \E i \in DOMAIN t.rows : Cardinality(Hits(t.rows[i])) > 1 THEN Undef       \* ambiguous map
      ELSE IF ~p.ignore_missing /\ (\E i \in DOMAIN t.rows : Hits(t.rows[i]) = {}) THEN Err("ValueError")
@@ -183,7 +191,8 @@ MergeConsecutive(p, t) ==
   IN IF p.set_durations /\ (\E a \in merged : \E j \in a..Last(a) : ~IsNum(R[j]["onset"])) THEN Undef
      ELSE Detail(Ok(t.cols, AtIdx([i \in 1..n |-> NewRow(i)], keep)),
                  \* a missing duration inside a merged run counts as 0: not said
-                 p.set_durations /\ (\E a \in merged : \E j \in a..Last(a) : ~IsNum(R[j]["duration"])))
+                 \/ p.set_durations /\ (\E a \in merged : \E j \in a..Last(a) : ~IsNum(R[j]["duration"]))
+                 \/ IsNum(p.event_code))
 
 (* split_rows: "Split rows ... with onset and duration columns into multiple rows based on a specified column."
    new_events = sequence of [name, onset_source, duration, (copy_columns)]; an item of onset_source/duration
@@ -226,7 +235,8 @@ SplitRows(p, t) ==
       Pos(i) == 1 + Cardinality({j \in 1..N : Before(j, i)})
       sorted == [q \in 1..N |-> rows[CHOOSE i \in 1..N : Pos(i) = q]]
   IN IF \E i \in 1..Len(parents) : ~IsNum(parents[i]["onset"]) THEN Undef        \* a kept row without onset: its place is not defined
-     ELSE Ok(ncols, sorted)
+     ELSE [Ok(ncols, sorted) EXCEPT !.u = \E q \in 1..(N - 1) : sorted[q]["onset"] = sorted[q + 1]["onset"]
+                                                                  /\ sorted[q] # sorted[q + 1]]
 
 Apply(o, t) ==
   CASE o.op = "remove_rows" -> RemoveRows(o, t)
@@ -362,7 +372,11 @@ RECURSIVE Pipe(_, _, _)
 Pipe(os, i, acc) ==      \* acc = [res, ops]
   IF i > Len(os) \/ acc.res.k # "ok" THEN acc
   ELSE LET s == Step(acc.ops[i], [cols |-> acc.res.cols, rows |-> acc.res.rows])
-       IN Pipe(os, i + 1, [res |-> Detail(s.res, acc.res.d), ops |-> [acc.ops EXCEPT ![i] = s.op]])
+           \* an operation whose result depends on the row order, after rows were left in a free order
+           free == acc.res.u /\ (acc.ops[i].op = "merge_consecutive"
+                                  \/ (acc.ops[i].op = "factor_column" /\ ~Has(acc.ops[i], "factor_values")))
+       IN Pipe(os, i + 1, [res |-> [Detail(s.res, acc.res.d \/ free) EXCEPT !.u = @ \/ (acc.res.u /\ s.res.k = "ok")],
+                           ops |-> [acc.ops EXCEPT ![i] = s.op]])
 RunAll(os, t) == Pipe(os, 1, [res |-> OkT(t), ops |-> os])
 \* a fresh dispatcher on the caller's list
 Pure(os, t) == RunAll([i \in DOMAIN os |-> Eff(os[i])], t).res
